@@ -83,8 +83,10 @@ func builtinDateToJSON(call FunctionCall) Value {
 	obj := call.thisObject()
 	value := obj.DefaultValue(defaultValueHintNumber) // FIXME object.primitiveNumberValue
 	// FIXME fv.isFinite
-	if fv := value.float64(); math.IsNaN(fv) || math.IsInf(fv, 0) {
-		return nullValue
+	if value.IsNumber() {
+		if fv := value.float64(); math.IsNaN(fv) || math.IsInf(fv, 0) {
+			return nullValue
+		}
 	}
 
 	toISOString := obj.get("toISOString")
